@@ -24,7 +24,11 @@ type colDef struct {
 	Name string `json:"n"`
 	Ty   int    `json:"ty"` // 1 INT, 2 BIGINT, 3 VARCHAR(10)
 	Null bool   `json:"null"`
+	Def  *int   `json:"def,omitempty"` // literal DEFAULT
+	Com  string `json:"com,omitempty"` // COMMENT
 }
+
+func cd(n string, ty int, null bool) colDef { return colDef{Name: n, Ty: ty, Null: null} }
 
 type opT struct {
 	Kind   string   `json:"k"`
@@ -43,15 +47,46 @@ type opT struct {
 	Before bool     `json:"before,omitempty"`
 	Ev     int      `json:"ev,omitempty"` // 0 insert 1 update 2 delete
 	Val    int      `json:"val,omitempty"`
+	Pre    []int    `json:"pre,omitempty"` // prefix lengths of CREATE INDEX key parts (nil: none)
+	Def    *int     `json:"def,omitempty"`
+	Com    string   `json:"com,omitempty"`
 }
 
 type caseT struct {
 	Ops []opT `json:"ops"`
 }
 
-var tyNames = map[int]string{1: "INT", 2: "BIGINT", 3: "VARCHAR(10)"}
-var tyCodes = map[string]uint64{"int": 1, "bigint": 2, "varchar(10)": 3}
+var tyNames = map[int]string{1: "INT", 2: "BIGINT", 3: "VARCHAR(10)", 4: "VARCHAR(10) COLLATE utf8mb4_0900_ai_ci"}
+var tyCodes = map[string]uint64{"int": 1, "bigint": 2, "varchar(10)": 3, "varchar(10) COLLATE utf8mb4_0900_ai_ci": 4}
 var evNames = []string{"INSERT", "UPDATE", "DELETE"}
+
+func (d colDef) SQL() string {
+	s := d.Name + " " + tyNames[d.Ty]
+	if !d.Null {
+		s += " NOT NULL"
+	}
+	if d.Def != nil {
+		if d.Ty >= 3 {
+			s += fmt.Sprintf(" DEFAULT '%d'", *d.Def)
+		} else {
+			s += fmt.Sprintf(" DEFAULT %d", *d.Def)
+		}
+	}
+	if d.Com != "" {
+		s += " COMMENT '" + d.Com + "'"
+	}
+	return s
+}
+
+func (d colDef) Coq() string {
+	def := "None"
+	if d.Def != nil {
+		def = fmt.Sprintf("(Some %d)", *d.Def)
+	}
+	return fmt.Sprintf("(mkcs %s %d %s %s %s)", cn(d.Name), d.Ty, lib.CoqBool(d.Null), def, cn(d.Com))
+}
+
+func (o opT) spec() colDef { return colDef{Name: o.C, Ty: o.Ty, Null: o.Null, Def: o.Def, Com: o.Com} }
 
 func trigBody(o opT) string {
 	if o.C == "" {
@@ -68,11 +103,7 @@ func (o opT) SQL() string {
 	case "CreateTable":
 		var parts []string
 		for _, d := range o.Defs {
-			s := d.Name + " " + tyNames[d.Ty]
-			if !d.Null {
-				s += " NOT NULL"
-			}
-			parts = append(parts, s)
+			parts = append(parts, d.SQL())
 		}
 		if len(o.Cols) > 0 {
 			parts = append(parts, "PRIMARY KEY ("+strings.Join(o.Cols, ", ")+")")
@@ -83,10 +114,7 @@ func (o opT) SQL() string {
 	case "RenameTable":
 		return "RENAME TABLE " + o.T + " TO " + o.U
 	case "AddColumn":
-		s := "ALTER TABLE " + o.T + " ADD COLUMN " + o.C + " " + tyNames[o.Ty]
-		if !o.Null {
-			s += " NOT NULL"
-		}
+		s := "ALTER TABLE " + o.T + " ADD COLUMN " + o.spec().SQL()
 		if o.Pos == 1 {
 			s += " FIRST"
 		} else if o.Pos == 2 {
@@ -102,7 +130,16 @@ func (o opT) SQL() string {
 		if o.Uniq {
 			u = "UNIQUE "
 		}
-		return "CREATE " + u + "INDEX " + o.U + " ON " + o.T + " (" + strings.Join(o.Cols, ", ") + ")"
+		parts := make([]string, len(o.Cols))
+		for i, c := range o.Cols {
+			parts[i] = c
+			if i < len(o.Pre) && o.Pre[i] > 0 {
+				parts[i] = fmt.Sprintf("%s(%d)", c, o.Pre[i])
+			}
+		}
+		return "CREATE " + u + "INDEX " + o.U + " ON " + o.T + " (" + strings.Join(parts, ", ") + ")"
+	case "CreateFnIndex":
+		return "CREATE INDEX " + o.U + " ON " + o.T + " ((" + o.C + " + 1))"
 	case "DropIndex":
 		return "DROP INDEX " + o.U + " ON " + o.T
 	case "AddPK":
@@ -164,9 +201,7 @@ func cnames(l []string) string {
 func (o opT) Coq() string {
 	switch o.Kind {
 	case "CreateTable":
-		defs := lib.CoqListOf(o.Defs, func(d colDef) string {
-			return lib.CoqTuple(cn(d.Name), lib.CoqN(uint64(d.Ty)), lib.CoqBool(d.Null))
-		})
+		defs := lib.CoqListOf(o.Defs, colDef.Coq)
 		return fmt.Sprintf("(CreateTable %s %s %s)", cn(o.T), defs, cnames(o.Cols))
 	case "DropTable":
 		return fmt.Sprintf("(DropTable %s)", cn(o.T))
@@ -179,13 +214,16 @@ func (o opT) Coq() string {
 		} else if o.Pos == 2 {
 			p = "(PAfter " + cn(o.C2) + ")"
 		}
-		return fmt.Sprintf("(AddColumn %s %s %d %s %s)", cn(o.T), cn(o.C), o.Ty, lib.CoqBool(o.Null), p)
+		return fmt.Sprintf("(AddColumn %s %s %s)", cn(o.T), o.spec().Coq(), p)
 	case "DropColumn":
 		return fmt.Sprintf("(DropColumn %s %s)", cn(o.T), cn(o.C))
 	case "RenameColumn":
 		return fmt.Sprintf("(RenameColumn %s %s %s)", cn(o.T), cn(o.C), cn(o.C2))
 	case "CreateIndex":
-		return fmt.Sprintf("(CreateIndex %s %s %s %s)", cn(o.T), cn(o.U), cnames(o.Cols), lib.CoqBool(o.Uniq))
+		return fmt.Sprintf("(CreateIndex %s %s %s %s %s)", cn(o.T), cn(o.U), cnames(o.Cols),
+			lib.CoqListOf(o.Pre, func(l int) string { return fmt.Sprint(l) }), lib.CoqBool(o.Uniq))
+	case "CreateFnIndex":
+		return fmt.Sprintf("(CreateFnIndex %s %s %s)", cn(o.T), cn(o.U), cn(o.C))
 	case "DropIndex":
 		return fmt.Sprintf("(DropIndex %s %s)", cn(o.T), cn(o.U))
 	case "AddPK":
@@ -280,8 +318,49 @@ var (
 	reCheck    = regexp.MustCompile("^\\(`([a-z0-9]+)` > ([0-9]+)\\)$")
 	reView     = regexp.MustCompile(`^SELECT ([a-z0-9, ]+) FROM ([a-z0-9]+)$`)
 	reProc     = regexp.MustCompile(`^SELECT ([0-9]+)$`)
+	rePK       = regexp.MustCompile("PRIMARY KEY \\(([^)]*)\\)")
 	reTrig     = regexp.MustCompile(`^SET @x = (?:(?:NEW|OLD)\.([a-z0-9]+)|1)$`)
 )
+
+var encColl = encMap(map[string]uint64{"utf8mb4_0900_bin": 1, "utf8mb4_0900_ai_ci": 2})
+
+// encTyColl: COLUMN_TYPE + COLLATION_NAME of information_schema.COLUMNS as one type code (1 INT, 2 BIGINT, 3 VARCHAR(10)
+// with the default collation, 4 VARCHAR(10) COLLATE utf8mb4_0900_ai_ci).
+func encTyColl(ty, coll interface{}) uint64 {
+	t, c := encTy(ty), encColl(coll)
+	switch {
+	case (t == 1 || t == 2) && c == nul:
+		return t
+	case t == 3 && c == 1:
+		return 3
+	case t == 3 && c == 2:
+		return 4
+	}
+	return 1<<61 + 94
+}
+
+// encDefault: SHOW COLUMNS prints string defaults quoted.
+func encDefault(v interface{}) uint64 {
+	s, ok := str(v)
+	if !ok {
+		return nul
+	}
+	return encNum(strings.Trim(s, "'"))
+}
+
+var reExpr = regexp.MustCompile(`^\(\(([a-z0-9]+) \+ 1\)\)$`)
+
+// encExpr: the EXPRESSION of a functional key part ((c + 1)) as its source column.
+func encExpr(v interface{}) uint64 {
+	s, ok := str(v)
+	if !ok {
+		return nul
+	}
+	if m := reExpr.FindStringSubmatch(s); m != nil {
+		return enc(m[1])
+	}
+	return 1<<61 + 93
+}
 
 func encTrigBody(v interface{}) uint64 {
 	s, _ := str(v)
@@ -311,6 +390,9 @@ type obsT struct {
 	Tables, Columns, Statistics, KCU, TCons, Refs, Checks, Views, Routines, Triggers listing
 	ShowTables, ShowFullTables, ShowTriggers                                         listing
 	ShowColumns, ShowIndexes                                                         map[string]listing
+	// neighbour databases da / db2 (static) and whole-server listings, SHOW CREATE TABLE's primary key part list
+	NbColumns, NbStatistics, AllTables, AllColumns, AllStatistics listing
+	ShowCreatePK                                                  map[string]listing
 }
 
 var tableUniverse = []string{"t0", "t1", "t2", "t3"}
@@ -319,14 +401,14 @@ func observe(s *eng.S) obsT {
 	var o obsT
 	o.Tables = query(s, "SELECT TABLE_NAME, CONCAT(TABLE_TYPE,'') FROM information_schema.TABLES WHERE TABLE_SCHEMA='db'",
 		func(r []interface{}) rowT { return rowT{encName(r[0]), encTabType(r[1])} })
-	o.Columns = query(s, "SELECT TABLE_NAME, COLUMN_NAME, ORDINAL_POSITION, IS_NULLABLE, COLUMN_TYPE, CONCAT(COLUMN_KEY,'') FROM information_schema.COLUMNS WHERE TABLE_SCHEMA='db'",
+	o.Columns = query(s, "SELECT TABLE_NAME, COLUMN_NAME, ORDINAL_POSITION, IS_NULLABLE, COLUMN_TYPE, CONCAT(COLUMN_KEY,''), COLLATION_NAME, COLUMN_DEFAULT, COLUMN_COMMENT FROM information_schema.COLUMNS WHERE TABLE_SCHEMA='db'",
 		func(r []interface{}) rowT {
-			return rowT{encName(r[0]), encName(r[1]), encNum(r[2]), encName(r[3]), encTy(r[4]), encKey(r[5])}
+			return rowT{encName(r[0]), encName(r[1]), encNum(r[2]), encName(r[3]), encTyColl(r[4], r[6]), encKey(r[5]), encNum(r[7]), encName(r[8])}
 		})
 	statRow := func(r []interface{}) rowT {
-		return rowT{encName(r[0]), encNum(r[1]), encName(r[2]), encNum(r[3]), encName(r[4]), encName(r[5])}
+		return rowT{encName(r[0]), encNum(r[1]), encName(r[2]), encNum(r[3]), encName(r[4]), encName(r[5]), encNum(r[6]), encExpr(r[7])}
 	}
-	o.Statistics = query(s, "SELECT TABLE_NAME, NON_UNIQUE, INDEX_NAME, SEQ_IN_INDEX, COLUMN_NAME, NULLABLE FROM information_schema.STATISTICS WHERE TABLE_SCHEMA='db'", statRow)
+	o.Statistics = query(s, "SELECT TABLE_NAME, NON_UNIQUE, INDEX_NAME, SEQ_IN_INDEX, COLUMN_NAME, NULLABLE, SUB_PART, EXPRESSION FROM information_schema.STATISTICS WHERE TABLE_SCHEMA='db'", statRow)
 	o.KCU = query(s, "SELECT CONSTRAINT_NAME, TABLE_NAME, COLUMN_NAME, ORDINAL_POSITION, POSITION_IN_UNIQUE_CONSTRAINT, REFERENCED_TABLE_NAME, REFERENCED_COLUMN_NAME FROM information_schema.KEY_COLUMN_USAGE WHERE TABLE_SCHEMA='db'",
 		func(r []interface{}) rowT {
 			return rowT{encName(r[0]), encName(r[1]), encName(r[2]), encNum(r[3]), encNum(r[4]), encName(r[5]), encName(r[6])}
@@ -377,14 +459,52 @@ func observe(s *eng.S) obsT {
 	o.ShowTriggers = query(s, "SHOW TRIGGERS", func(r []interface{}) rowT {
 		return rowT{encName(r[0]), encEvent(r[1]), encName(r[2]), encTiming(r[4]), encTrigBody(r[3])}
 	})
+	o.NbColumns = query(s, "SELECT TABLE_SCHEMA, TABLE_NAME, COLUMN_NAME, ORDINAL_POSITION FROM information_schema.COLUMNS WHERE TABLE_SCHEMA IN ('da','db2')",
+		func(r []interface{}) rowT { return rowT{encName(r[0]), encName(r[1]), encName(r[2]), encNum(r[3])} })
+	o.NbStatistics = query(s, "SELECT TABLE_SCHEMA, TABLE_NAME, INDEX_NAME, SEQ_IN_INDEX, COLUMN_NAME FROM information_schema.STATISTICS WHERE TABLE_SCHEMA IN ('da','db2')",
+		func(r []interface{}) rowT {
+			return rowT{encName(r[0]), encName(r[1]), encName(r[2]), encNum(r[3]), encName(r[4])}
+		})
+	// unfiltered by the engine (the schema filter is applied here, in Go, to drop information_schema / mysql)
+	keep := func(l listing) listing {
+		out := listing{Err: l.Err, Rows: []rowT{}}
+		for _, r := range l.Rows {
+			if r[0] == enc("da") || r[0] == enc("db") || r[0] == enc("db2") {
+				out.Rows = append(out.Rows, r)
+			}
+		}
+		return out
+	}
+	o.AllTables = keep(query(s, "SELECT TABLE_SCHEMA, TABLE_NAME, CONCAT(TABLE_TYPE,'') FROM information_schema.TABLES",
+		func(r []interface{}) rowT { return rowT{encName(r[0]), encName(r[1]), encTabType(r[2])} }))
+	o.AllColumns = keep(query(s, "SELECT TABLE_SCHEMA, TABLE_NAME, COLUMN_NAME, ORDINAL_POSITION FROM information_schema.COLUMNS",
+		func(r []interface{}) rowT { return rowT{encName(r[0]), encName(r[1]), encName(r[2]), encNum(r[3])} }))
+	o.AllStatistics = keep(query(s, "SELECT TABLE_SCHEMA, TABLE_NAME, INDEX_NAME, SEQ_IN_INDEX, COLUMN_NAME FROM information_schema.STATISTICS",
+		func(r []interface{}) rowT {
+			return rowT{encName(r[0]), encName(r[1]), encName(r[2]), encNum(r[3]), encName(r[4])}
+		}))
 	o.ShowColumns = map[string]listing{}
 	o.ShowIndexes = map[string]listing{}
+	o.ShowCreatePK = map[string]listing{}
 	for _, t := range tableUniverse {
-		o.ShowColumns[t] = query(s, "SHOW COLUMNS FROM "+t, func(r []interface{}) rowT {
-			return rowT{encName(r[0]), encTy(r[1]), encName(r[2]), encKey(r[3])}
+		res := s.Query("SHOW CREATE TABLE " + t)
+		if res.Err != nil || len(res.Rows) != 1 {
+			o.ShowCreatePK[t] = listing{Err: true}
+		} else {
+			txt, _ := str(res.Rows[0][1])
+			row := rowT{}
+			if m := rePK.FindStringSubmatch(txt); m != nil {
+				for _, c := range strings.Split(m[1], ",") {
+					row = append(row, enc(strings.Trim(c, "`")))
+				}
+			}
+			o.ShowCreatePK[t] = listing{Rows: []rowT{row}}
+		}
+		o.ShowColumns[t] = query(s, "SHOW FULL COLUMNS FROM "+t, func(r []interface{}) rowT {
+			return rowT{encName(r[0]), encTy(r[1]), encName(r[3]), encKey(r[4]), encDefault(r[5]), encName(r[8]), encColl(r[2])}
 		})
 		o.ShowIndexes[t] = query(s, "SHOW INDEXES FROM "+t, func(r []interface{}) rowT {
-			return rowT{encName(r[0]), encNum(r[1]), encName(r[2]), encNum(r[3]), encName(r[4]), encName(r[9])}
+			return rowT{encName(r[0]), encNum(r[1]), encName(r[2]), encNum(r[3]), encName(r[4]), encName(r[9]), encNum(r[7]), encExpr(r[14])}
 		})
 	}
 	return o
@@ -402,7 +522,15 @@ func (o obsT) Coq() string {
 	}
 	parts := []string{coqRows(o.Tables), coqRows(o.Columns), coqRows(o.Statistics), coqRows(o.KCU), coqRows(o.TCons),
 		coqRows(o.Refs), coqRows(o.Checks), coqRows(o.Views), coqRows(o.Routines), coqORows(o.Triggers),
-		coqRows(o.ShowFullTables), coqORows(o.ShowTriggers), per(o.ShowColumns), per(o.ShowIndexes)}
+		coqRows(o.ShowFullTables), coqORows(o.ShowTriggers), per(o.ShowColumns), per(o.ShowIndexes),
+		coqRows(listing{Rows: append(append([]rowT{}, o.NbColumns.Rows...), o.NbStatistics.Rows...)}),
+		lib.CoqListOf(tableUniverse, func(t string) string {
+			l := o.ShowCreatePK[t]
+			if l.Err {
+				return lib.CoqTuple(cn(t), "None")
+			}
+			return lib.CoqTuple(cn(t), "(Some "+coqRow(l.Rows[0])+")")
+		})}
 	for i := range parts {
 		if !strings.HasPrefix(parts[i], "(") {
 			parts[i] = "(" + parts[i] + ")"
@@ -416,6 +544,8 @@ func (o obsT) Coq() string {
 type rIdx struct {
 	Cols []string
 	Uniq bool
+	Pre  []int  // prefix lengths as given at creation, positional (the engine keeps them positional when a key part is dropped)
+	Fn   string // source column of a functional index ((c + 1)), "" otherwise
 }
 type rChk struct {
 	Col string
@@ -504,7 +634,7 @@ func (t *rTbl) hasIndexWithPrefix(cols []string) bool {
 		return true
 	}
 	for _, i := range t.Idx {
-		if isPrefix(cols, i.Cols) {
+		if i.Pre == nil && i.Fn == "" && isPrefix(cols, i.Cols) {
 			return true
 		}
 	}
@@ -559,7 +689,7 @@ func (r *refT) apply(o opT) {
 			}
 		}
 	case "AddColumn":
-		d := colDef{o.C, o.Ty, o.Null}
+		d := o.spec()
 		k := len(t.Cols)
 		if o.Pos == 1 {
 			k = 0
@@ -577,7 +707,7 @@ func (r *refT) apply(o opT) {
 			if j := idxOf(i.Cols, o.C); j >= 0 {
 				i.Cols = append(i.Cols[:j], i.Cols[j+1:]...)
 			}
-			if len(i.Cols) == 0 {
+			if len(i.Cols) == 0 && i.Fn == "" {
 				delete(t.Idx, n)
 			}
 		}
@@ -604,7 +734,9 @@ func (r *refT) apply(o opT) {
 			}
 		}
 	case "CreateIndex":
-		t.Idx[o.U] = &rIdx{append([]string{}, o.Cols...), o.Uniq}
+		t.Idx[o.U] = &rIdx{Cols: append([]string{}, o.Cols...), Uniq: o.Uniq, Pre: append([]int(nil), o.Pre...)}
+	case "CreateFnIndex":
+		t.Idx[o.U] = &rIdx{Fn: o.C}
 	case "DropIndex":
 		delete(t.Idx, o.U)
 	case "AddPK":
@@ -616,7 +748,7 @@ func (r *refT) apply(o opT) {
 		t.PK = nil
 	case "AddFK":
 		if !t.hasIndexWithPrefix(o.Cols) {
-			t.Idx[o.U] = &rIdx{append([]string{}, o.Cols...), false}
+			t.Idx[o.U] = &rIdx{Cols: append([]string{}, o.Cols...)}
 		}
 		r.FKs[o.U] = &rFK{o.T, o.Parent, append([]string{}, o.Cols...), append([]string{}, o.PCols...)}
 	case "DropFK":
@@ -705,9 +837,79 @@ func (r *refT) check(o obsT, crossOnly bool) *failure {
 				return "pk-garbled/rename-column-in-composite-pk"
 			}
 		}
+		for n, t := range r.Tables {
+			for _, ix := range t.Idx {
+				if ix.Fn != "" && diffVals[enc(n)] && strings.HasSuffix(dflt, "/COLUMNS") {
+					return "columns/ordinal-position-counts-hidden-functional-index-column"
+				}
+			}
+		}
 		return dflt
 	}
 	cross := func() *failure {
+		// the neighbour databases keep exactly their own objects, and the unfiltered listings are the union of the
+		// per-schema ones (no row of one database shows up under a same-named table of another)
+		nbCols := []rowT{{enc("da"), enc("t0"), enc("y0"), 1}, {enc("da"), enc("t0"), enc("y1"), 2}, {enc("db2"), enc("t3"), enc("z0"), 1}, {enc("db2"), enc("t3"), enc("z1"), 2}}
+		nbStats := []rowT{{enc("da"), enc("t0"), enc("PRIMARY"), 1, enc("y0")}, {enc("db2"), enc("t3"), enc("PRIMARY"), 1, enc("z0")}}
+		nbTabs := []rowT{{enc("da"), enc("t0"), 1}, {enc("db2"), enc("t3"), 1}}
+		if o.NbColumns.Err || !sameKeys(keys(o.NbColumns.Rows, nil), keys(nbCols, nil)) {
+			return &failure{"mismatch/COLUMNS-of-neighbour-database", fmt.Sprintf("COLUMNS of da/db2: %v", o.NbColumns.Rows)}
+		}
+		if o.NbStatistics.Err || !sameKeys(keys(o.NbStatistics.Rows, nil), keys(nbStats, nil)) {
+			return &failure{"mismatch/STATISTICS-of-neighbour-database", fmt.Sprintf("STATISTICS of da/db2: %v", o.NbStatistics.Rows)}
+		}
+		withDB := func(rows []rowT, proj []int) []rowT {
+			var out []rowT
+			for _, r := range rows {
+				x := rowT{enc("db")}
+				for _, i := range proj {
+					x = append(x, r[i])
+				}
+				out = append(out, x)
+			}
+			return out
+		}
+		if !o.Tables.Err && !o.Columns.Err && !o.Statistics.Err {
+			if o.AllTables.Err || !sameKeys(keys(o.AllTables.Rows, nil), keys(append(withDB(o.Tables.Rows, []int{0, 1}), nbTabs...), nil)) {
+				return &failure{"mismatch/TABLES-unfiltered-vs-per-schema", fmt.Sprintf("unfiltered TABLES %v", o.AllTables.Rows)}
+			}
+			if o.AllColumns.Err || !sameKeys(keys(o.AllColumns.Rows, nil), keys(append(withDB(o.Columns.Rows, []int{0, 1, 2}), nbCols...), nil)) {
+				return &failure{"mismatch/COLUMNS-unfiltered-vs-per-schema", fmt.Sprintf("unfiltered COLUMNS %v", o.AllColumns.Rows)}
+			}
+			if o.AllStatistics.Err || !sameKeys(keys(o.AllStatistics.Rows, nil), keys(append(withDB(o.Statistics.Rows, []int{0, 2, 3, 4}), nbStats...), nil)) {
+				return &failure{"mismatch/STATISTICS-unfiltered-vs-per-schema", fmt.Sprintf("unfiltered STATISTICS %v", o.AllStatistics.Rows)}
+			}
+		}
+		// primary key part order: SHOW CREATE TABLE = STATISTICS (SEQ_IN_INDEX) = SHOW INDEXES = KEY_COLUMN_USAGE (ORDINAL_POSITION)
+		for _, n := range sortedKeys(r.Tables) {
+			if r.Views[n] != nil {
+				continue
+			}
+			order := func(rows []rowT, tab, idx, seq, col int) string {
+				var sel []rowT
+				for _, row := range rows {
+					if (tab < 0 || row[tab] == enc(n)) && row[idx] == enc("PRIMARY") {
+						sel = append(sel, row)
+					}
+				}
+				sort.Slice(sel, func(i, j int) bool { return sel[i][seq] < sel[j][seq] })
+				var cs rowT
+				for _, row := range sel {
+					cs = append(cs, row[col])
+				}
+				return keyOf(cs)
+			}
+			sc := o.ShowCreatePK[n]
+			if sc.Err || o.ShowIndexes[n].Err {
+				return &failure{"listing-error/SHOW CREATE TABLE", "SHOW CREATE TABLE / SHOW INDEXES " + n + " failed"}
+			}
+			a, b, c2, d := keyOf(sc.Rows[0]), order(o.Statistics.Rows, 0, 2, 3, 4), order(o.ShowIndexes[n].Rows, -1, 2, 3, 4), order(o.KCU.Rows, 1, 0, 3, 2)
+			if a != b || b != c2 || c2 != d {
+				diffVals = map[uint64]bool{enc(n): true}
+				return &failure{tableCause("pk-order/show-create-vs-statistics-vs-show-indexes-vs-kcu"),
+					fmt.Sprintf("%s: PRIMARY KEY parts: SHOW CREATE TABLE [%s], STATISTICS [%s], SHOW INDEXES [%s], KEY_COLUMN_USAGE [%s]", n, a, b, c2, d)}
+			}
+		}
 		// cross-consistency: SHOW COLUMNS / SHOW INDEXES against information_schema for every existing table
 		for _, n := range sortedKeys(r.Tables) {
 			sc, si := o.ShowColumns[n], o.ShowIndexes[n]
@@ -731,7 +933,7 @@ func (r *refT) check(o obsT, crossOnly bool) *failure {
 			}
 			for i, row := range sc.Rows {
 				ic := isCols[i]
-				if row[0] != ic[1] || row[1] != ic[4] || row[2] != ic[3] {
+				if row[0] != ic[1] || row[1] != ic[4] || row[2] != ic[3] || row[4] != ic[6] || row[5] != ic[7] {
 					return &failure{"mismatch/SHOW COLUMNS-vs-COLUMNS", fmt.Sprintf("%s: SHOW COLUMNS %v, COLUMNS %v", n, row, ic)}
 				}
 				if row[3] != ic[5] {
@@ -740,13 +942,30 @@ func (r *refT) check(o obsT, crossOnly bool) *failure {
 					return &failure{tableCause(fmt.Sprintf("column-key/show-%s/is-%s", kn[row[3]%4], kn[ic[5]%4])),
 						fmt.Sprintf("%s.%d: SHOW COLUMNS Key=%d, information_schema COLUMN_KEY=%d (0 none 1 PRI 2 UNI 3 MUL)", n, i+1, row[3], ic[5])}
 				}
+				isColl := nul
+				if ic[4] == 3 {
+					isColl = 1
+				} else if ic[4] == 4 {
+					isColl = 2
+				}
+				if row[6] != isColl {
+					sig := "mismatch/SHOW FULL COLUMNS-collation"
+					if row[6] == 1 && isColl == 2 {
+						sig = "show-full-columns/collation-always-server-default"
+					}
+					return &failure{sig, fmt.Sprintf("%s.%d: SHOW FULL COLUMNS Collation=%d, information_schema COLLATION_NAME=%d (1 utf8mb4_0900_bin 2 utf8mb4_0900_ai_ci)", n, i+1, row[6], isColl)}
+				}
 			}
-			if !sameKeys(keys(si.Rows, nil), keys(isStats, nil)) {
+			noSub := []int{0, 1, 2, 3, 4, 5, 7}
+			if !sameKeys(keys(si.Rows, noSub), keys(isStats, noSub)) {
 				sig := "mismatch/SHOW INDEXES-vs-STATISTICS"
-				if r.Tables[n].renamedWithIdx && sameKeys(keys(si.Rows, []int{1, 2, 3, 4, 5}), keys(isStats, []int{1, 2, 3, 4, 5})) {
+				if r.Tables[n].renamedWithIdx && sameKeys(keys(si.Rows, noSub[1:]), keys(isStats, noSub[1:])) {
 					sig = "show-indexes/stale-table-name-after-rename-table"
 				}
 				return &failure{sig, fmt.Sprintf("%s: SHOW INDEXES %v, STATISTICS %v", n, si.Rows, isStats)}
+			}
+			if !sameKeys(keys(si.Rows, []int{2, 3, 6}), keys(isStats, []int{2, 3, 6})) {
+				return &failure{"show-indexes/sub-part-not-reported", fmt.Sprintf("%s: Sub_part of SHOW INDEXES %v, SUB_PART of STATISTICS %v", n, si.Rows, isStats)}
 			}
 		}
 		return nil
@@ -810,10 +1029,14 @@ func (r *refT) check(o obsT, crossOnly bool) *failure {
 			if c.Null {
 				yn = "YES"
 			}
-			wantCols = append(wantCols, rowT{enc(n), enc(c.Name), uint64(i + 1), enc(yn), uint64(c.Ty)})
+			def := nul
+			if c.Def != nil {
+				def = uint64(*c.Def)
+			}
+			wantCols = append(wantCols, rowT{enc(n), enc(c.Name), uint64(i + 1), enc(yn), uint64(c.Ty), def, enc(c.Com)})
 		}
 		for i, c := range t.PK {
-			wantStats = append(wantStats, rowT{enc(n), 0, enc("PRIMARY"), uint64(i + 1), enc(c)})
+			wantStats = append(wantStats, rowT{enc(n), 0, enc("PRIMARY"), uint64(i + 1), enc(c), nul, nul})
 			wantKCU = append(wantKCU, rowT{enc("PRIMARY"), enc(n), enc(c), uint64(i + 1), nul, nul})
 		}
 		if len(t.PK) > 0 {
@@ -821,8 +1044,15 @@ func (r *refT) check(o obsT, crossOnly bool) *failure {
 		}
 		for _, in := range sortedKeys(t.Idx) {
 			ix := t.Idx[in]
+			if ix.Fn != "" { // functional key part: no column name, the expression instead
+				wantStats = append(wantStats, rowT{enc(n), 1, enc(in), 1, nul, nul, enc(ix.Fn)})
+			}
 			for i, c := range ix.Cols {
-				wantStats = append(wantStats, rowT{enc(n), bN(!ix.Uniq), enc(in), uint64(i + 1), enc(c)})
+				sub := nul
+				if ix.Pre != nil && i < len(ix.Pre) {
+					sub = uint64(ix.Pre[i])
+				}
+				wantStats = append(wantStats, rowT{enc(n), bN(!ix.Uniq), enc(in), uint64(i + 1), enc(c), sub, nul})
 				if ix.Uniq {
 					wantKCU = append(wantKCU, rowT{enc(in), enc(n), enc(c), uint64(i + 1), nul, nul})
 				}
@@ -853,10 +1083,10 @@ func (r *refT) check(o obsT, crossOnly bool) *failure {
 			}
 		}
 	}
-	if f := cmp("COLUMNS", baseCols, []int{0, 1, 2, 3, 4}, wantCols, tableCause); f != nil {
+	if f := cmp("COLUMNS", baseCols, []int{0, 1, 2, 3, 4, 6, 7}, wantCols, tableCause); f != nil {
 		return f
 	}
-	if f := cmp("STATISTICS", o.Statistics, []int{0, 1, 2, 3, 4}, wantStats, tableCause); f != nil {
+	if f := cmp("STATISTICS", o.Statistics, []int{0, 1, 2, 3, 4, 6, 7}, wantStats, tableCause); f != nil {
 		return f
 	}
 	if f := cmp("TABLE_CONSTRAINTS", o.TCons, nil, wantCons, tableCause); f != nil {
@@ -1050,20 +1280,35 @@ func genOp(r *lib.RNG, ref *refT) opT {
 	case w < 15:
 		return opT{Kind: "RenameTable", T: t, U: lib.Pick(r, tableUniverse)}
 	case w < 25:
-		o := opT{Kind: "AddColumn", T: t, C: freeC(t), Ty: r.Range(1, 3), Null: r.Bool(), Pos: r.Intn(3)}
+		o := withCol(opT{Kind: "AddColumn", T: t, Pos: r.Intn(3)}, genCol(r, freeC(t)))
 		if o.Pos == 2 {
 			o.C2 = pickC(t)
 		}
 		return o
 	case w < 32:
 		if tb := ref.Tables[t]; tb != nil && len(tb.Cols) == 1 && !r.Chance(1, 6) {
-			return opT{Kind: "AddColumn", T: t, C: freeC(t), Ty: r.Range(1, 3), Null: r.Bool()}
+			return withCol(opT{Kind: "AddColumn", T: t}, genCol(r, freeC(t)))
 		}
 		return opT{Kind: "DropColumn", T: t, C: pickC(t)}
 	case w < 42:
 		return opT{Kind: "RenameColumn", T: t, C: pickC(t), C2: freeC(t)}
 	case w < 53:
-		return opT{Kind: "CreateIndex", T: t, U: lib.Pick(r, idxUniverse), Cols: colsOf(t, 1, 2), Uniq: r.Chance(2, 5)}
+		if r.Chance(1, 6) { // functional index ((c + 1)): brings a hidden system column
+			return opT{Kind: "CreateFnIndex", T: t, U: lib.Pick(r, idxUniverse), C: pickC(t)}
+		}
+		o := opT{Kind: "CreateIndex", T: t, U: lib.Pick(r, idxUniverse), Cols: colsOf(t, 1, 2), Uniq: r.Chance(2, 5)}
+		if tb := ref.Tables[t]; tb != nil { // prefix lengths on string key parts (rarely on others: rejected)
+			pre, any := make([]int, len(o.Cols)), false
+			for i, c := range o.Cols {
+				if cdf := tb.col(c); cdf != nil && ((cdf.Ty >= 3 && r.Chance(1, 3)) || r.Chance(1, 30)) {
+					pre[i], any = r.Range(1, 4), true
+				}
+			}
+			if any {
+				o.Pre = pre
+			}
+		}
+		return o
 	case w < 58:
 		u := lib.Pick(r, idxUniverse)
 		if tb := ref.Tables[t]; tb != nil && len(tb.Idx) > 0 && !wild {
@@ -1163,6 +1408,23 @@ func genOp(r *lib.RNG, ref *refT) opT {
 	}
 }
 
+func genCol(r *lib.RNG, n string) colDef {
+	d := cd(n, r.Range(1, 4), r.Bool())
+	if r.Chance(1, 4) {
+		v := r.Intn(10)
+		d.Def = &v
+	}
+	if r.Chance(1, 4) {
+		d.Com = lib.Pick(r, []string{"k1", "k2", "k3"})
+	}
+	return d
+}
+
+func withCol(o opT, d colDef) opT {
+	o.C, o.Ty, o.Null, o.Def, o.Com = d.Name, d.Ty, d.Null, d.Def, d.Com
+	return o
+}
+
 func genCreate(r *lib.RNG, ref *refT) opT {
 	o := opT{Kind: "CreateTable", T: lib.Pick(r, tableUniverse)}
 	for k := 0; k < 4 && ref.Tables[o.T] != nil; k++ {
@@ -1170,7 +1432,7 @@ func genCreate(r *lib.RNG, ref *refT) opT {
 	}
 	names := pickSome(r, colUniverse, 1, 4)
 	for _, n := range names {
-		o.Defs = append(o.Defs, colDef{n, r.Range(1, 3), r.Bool()})
+		o.Defs = append(o.Defs, genCol(r, n))
 	}
 	if r.Chance(2, 3) {
 		o.Cols = pickSome(r, names, 1, 2)
@@ -1188,7 +1450,12 @@ func newEngine() *eng.S {
 	mdb := e.Engine.Analyzer.Catalog.MySQLDb
 	mdb.AddRootAccount()
 	mdb.SetPersister(&mysql_db.NoopPersister{})
-	return e.Session()
+	s := e.Session()
+	// two static neighbour databases with table names that also occur in "db": da sorts before, db2 after
+	s.MustExec("CREATE DATABASE da", "CREATE DATABASE db2",
+		"CREATE TABLE da.t0 (y0 INT NOT NULL, y1 BIGINT, PRIMARY KEY (y0))",
+		"CREATE TABLE db2.t3 (z0 INT NOT NULL, z1 VARCHAR(10), PRIMARY KEY (z0))")
+	return s
 }
 
 // snapshot reads the catalog through a path independent of information_schema and of the SHOW statements under
@@ -1290,10 +1557,10 @@ func ct(t string, pk []string, defs ...colDef) opT {
 }
 
 func corpus() [][]opT {
-	i := func(n string, null bool) colDef { return colDef{n, 1, null} }
+	i := func(n string, null bool) colDef { return cd(n, 1, null) }
 	return [][]opT{
 		// plain life cycle
-		{ct("t0", []string{"c0"}, i("c0", false), i("c1", true), colDef{"c2", 3, true}),
+		{ct("t0", []string{"c0"}, i("c0", false), i("c1", true), cd("c2", 3, true)),
 			{Kind: "CreateIndex", T: "t0", U: "i0", Cols: []string{"c1", "c2"}}, {Kind: "CreateIndex", T: "t0", U: "i1", Cols: []string{"c2"}, Uniq: true},
 			{Kind: "AddCheck", T: "t0", U: "k0", C: "c1", Val: 5}, {Kind: "CreateView", U: "v0", T: "t0", Cols: []string{"c0", "c1"}},
 			{Kind: "CreateProc", U: "p0", Val: 7}, {Kind: "CreateTrigger", U: "g0", T: "t0", Before: true, Ev: 0, C: "c1"},
@@ -1324,10 +1591,10 @@ func corpus() [][]opT {
 		{ct("t0", []string{}, i("c0", true)), ct("t1", []string{}, i("c0", true)),
 			{Kind: "CreateTrigger", U: "g0", T: "t1", Before: true, Ev: 1}, {Kind: "CreateTrigger", U: "g1", T: "t0", Before: true, Ev: 1}},
 		// known: DROP COLUMN of a UNIQUE index column of a keyless table panics
-		{ct("t2", []string{}, i("c4", true), colDef{"c0", 2, false}, i("c2", true)),
+		{ct("t2", []string{}, i("c4", true), cd("c0", 2, false), i("c2", true)),
 			{Kind: "CreateIndex", T: "t2", U: "i3", Cols: []string{"c2"}, Uniq: true}, {Kind: "DropColumn", T: "t2", C: "c2"}},
 		// known: column-less table, then ADD COLUMN / CREATE INDEX panic
-		{ct("t1", []string{}, colDef{"c0", 3, false}), {Kind: "DropColumn", T: "t1", C: "c0"}, {Kind: "AddColumn", T: "t1", C: "c2", Ty: 1, Null: true}},
+		{ct("t1", []string{}, cd("c0", 3, false)), {Kind: "DropColumn", T: "t1", C: "c0"}, {Kind: "AddColumn", T: "t1", C: "c2", Ty: 1, Null: true}},
 		{ct("t0", []string{}, i("c2", false)), {Kind: "DropColumn", T: "t0", C: "c2"}, {Kind: "CreateIndex", T: "t0", U: "i0", Cols: []string{"c0", "c5"}},
 			{Kind: "AddColumn", T: "t0", C: "c1", Ty: 1, Null: true, Pos: 1}},
 		// known: SHOW INDEXES keeps the old table name after RENAME TABLE
@@ -1337,7 +1604,7 @@ func corpus() [][]opT {
 		{ct("t1", []string{"c0"}, i("c0", false)), ct("t2", []string{"c0"}, i("c0", false), i("c1", true)), ct("t3", []string{"c0"}, i("c0", false)),
 			{Kind: "AddFK", T: "t2", U: "f0", Cols: []string{"c1"}, Parent: "t1", PCols: []string{"c0"}}, {Kind: "RenameTable", T: "t1", U: "t3"}},
 		// known: key flag of a keyless table with composite UNIQUE NOT NULL index
-		{ct("t3", []string{}, colDef{"c4", 2, false}, i("c3", false)), {Kind: "CreateIndex", T: "t3", U: "i1", Cols: []string{"c4", "c3"}, Uniq: true}},
+		{ct("t3", []string{}, cd("c4", 2, false), i("c3", false)), {Kind: "CreateIndex", T: "t3", U: "i1", Cols: []string{"c4", "c3"}, Uniq: true}},
 		// name clashes between tables and views, foreign key life cycle, primary key changes
 		{ct("t0", []string{}, i("c0", true), i("c1", true)), {Kind: "CreateView", U: "t1", T: "t0", Cols: []string{"c0"}},
 			ct("t1", []string{}, i("c0", true)), {Kind: "RenameTable", T: "t0", U: "t1"}, {Kind: "CreateView", U: "t0", T: "t0", Cols: []string{"c0"}},
